@@ -49,9 +49,54 @@ def cast_out(a):
     return [int(v) for v in interp.cast_store(a, "int16").tolist()]
 
 
+def cube_cases(rng, ncubes):
+    """multi-pixel cubes through whits(sg=DataArray): every pixel has its own sgrid value, the sgrid is a labelled
+    DataArray whose dimension order may differ from the data's (alignment is by label), the grid is not square"""
+    import xarray as xr
+
+    out = []
+    for _ in range(ncubes):
+        ny, nx, n = 2, 3, rng.choice([6, 8, 10])
+        nd = -3000
+        hasp = rng.random() < 0.5
+        p = rng.choice([0.1, 0.9]) if hasp else None
+        pix = {(i, j): gaps(rng, series(rng, n, "season"), nd, rng.choice([0.0, 0.2])) for i in range(ny) for j in range(nx)}
+        sgv = {(i, j): rng.choice([-1.0, -0.5, 0.0, 0.5, 1.0, 1.5, 2.0, "-inf"]) for i in range(ny) for j in range(nx)}
+        data = np.array([[pix[(i, j)] for j in range(nx)] for i in range(ny)], dtype="float64")       # (y, x, time)
+        ddims = rng.choice([("y", "x", "time"), ("time", "y", "x"), ("x", "time", "y")])
+        da = xr.DataArray(data, dims=("y", "x", "time"), coords={"y": [10.0, 20.0], "x": [1.0, 2.0, 3.0]}).transpose(*ddims)
+        sga = np.array([[(-np.inf if sgv[(i, j)] == "-inf" else sgv[(i, j)]) for j in range(nx)] for i in range(ny)])
+        sg = xr.DataArray(sga, dims=("y", "x"), coords={"y": [10.0, 20.0], "x": [1.0, 2.0, 3.0]})
+        sgorder = rng.choice([("y", "x"), ("x", "y")])
+        sg = sg.transpose(*sgorder)
+        if rng.random() < 0.3:
+            da = da.chunk({"y": 1, "x": 1})
+        try:
+            kw = {"p": p} if hasp else {}
+            r = da.hdc.whit.whits(nd, sg=sg, **kw)
+            res = {(i, j): [int(v) for v in np.asarray(r.sel(y=[10.0, 20.0][i], x=[1.0, 2.0, 3.0][j])).tolist()] for i in range(ny) for j in range(nx)}
+            exc = ""
+        except Exception as ex:
+            res, exc = {}, type(ex).__name__
+        for (i, j), y in pix.items():
+            s_ = sgv[(i, j)]
+            with np.errstate(divide="ignore"):
+                lam = 0.0 if s_ == "-inf" else float(10.0 ** float(s_))
+            c = {"op": "fixed", "api": "whits_sg_cube", "_done": True, "y": [str(v) for v in y], "nd": str(nd), "lam": fl(lam), "hasp": hasp, "p": fl(p) if hasp else "0",
+                 "sg": "-inf" if s_ == "-inf" else fl(s_), "dims": list(ddims), "sgdims": list(sgorder), "variant": "pgu" if hasp else "gu", "inmod": False,
+                 "out": res.get((i, j), [0] * len(y)), "exc": exc, "hints": []}
+            if hasp and lam != 0.0 and not exc:
+                c["hints"], c["out_py"] = hints_pgu(np.array(y, dtype="float64"), lam, nd, p)
+            out.append(c)
+    return out
+
+
 def execute(c):
     import xarray as xr
     from hdc.algo import ops
+
+    if c.get("_done"):
+        return c
 
     y = np.array([float("nan") if s == "nan" else float(core.unrat(s)) for s in c["y"]], dtype="float64")
     nd = float(core.unrat(c["nd"]))
@@ -154,6 +199,8 @@ def gen_cases(tier, seed):
     for _ in range(2 if quick else 10):      # p = 1/2 through the accessor
         y = gaps(rng, series(rng, 10, "season"), -3000, 0.1)
         add({"op": "fixed", "api": "whits_s", "y": [str(x) for x in y], "nd": "-3000", "lam": fl(10.0), "hasp": True, "p": fl(0.5), "dims": ["time", "y", "x"]})
+    for c in cube_cases(rng, 3 if quick else 25):
+        add(c)
     # boundary numbers of valid cells: 0, 1 -> pass-through; 2, 3, 4 -> the curve (a line through two points)
     for nv in (0, 1, 2, 2, 3, 4):
         for hasp in (False, True):
